@@ -15,6 +15,9 @@ _harn = [
    'selftests': [{'define': 'VS_SELFTEST_OOB', 'kind': 'memory'}, {'define': 'VS_SELFTEST_UAF', 'kind': 'memory'}, {'define': 'VS_SELFTEST_UNINIT', 'kind': 'memory'}, {'define': 'VS_SELFTEST_DOUBLEFREE', 'kind': 'memory'}]},
   {'name': 'stl_probe', 'src': 'harness/C20/stl_probe.cc', 'tus': [],
    'configs': {'quick': [{'MODE': 0}, {'MODE': 1}]}, 'selftest_config': {'MODE': 0}, 'selftests': []},
+  # simulation entry points of the finite-automata encoding (known finding C20-3)
+  {'name': 'fa_sim', 'src': 'harness/C20/fa_sim.cc', 'tus': ['explicit_finite_aut', 'explicit_finite_aut_core', 'explicit_finite_sim', 'explicit_lts_sim', 'aut_base', 'util', 'convert'],
+   'configs': {'quick': [{'NA': 2, 'DIR': d} for d in (0, 1, 2)]}, 'selftest_config': {'NA': 2, 'DIR': 0}, 'selftests': []},
   # upward simulation on every automaton of the universe, not only on trimmed ones (C04 assumes trimmed automata because
   # the greatest-simulation claim is stated for them; memory safety is not limited to them): known finding C20-2
   {'name': 'C04_up_any', 'src': 'harness/C04/sim.cc', 'tus': TREE_INCL,
